@@ -9,10 +9,13 @@
 //!   `warm` whether a lookup fills the cache before the threads start
 //!   `th`   the threads: `L` a lookup, `P<ts>.<id>` a publish of the packet with that
 //!          timestamp and DNS message id (= first payload bytes, the tie-breaker)
-//!   `sch`  schedule: each digit lets that thread try its next step; a step that needs
-//!          the cache lock while it is held is skipped (`b`); afterwards the threads are
+//!   `sch`  schedule: each digit lets that thread try its next step.  A step that needs the
+//!          cache lock while it is held is NOT skipped: the real task is let into the real
+//!          acquisition and must be observed blocked (`b`: no progress within 25 ms); it
+//!          completes, in FIFO order, as soon as the holder releases (`+<thread>:<ev>`
+//!          appended to the token that released the lock).  Afterwards the threads are
 //!          drained round-robin, then a fresh lookup and a packet read run.
-//! output: per token `<ev>,<store>,<cache>` with ev = `ok` | `b` | `-` (thread finished
+//! output: per token `<ev>[+<i>:<ev>…],<store>,<cache>` with ev = `ok` | `b` | `-` (thread finished
 //!   earlier) | `ans:<ts.id|none>` (lookup finished) | `ack:<0|1>` (publish finished);
 //!   store = `ts.id|none`; cache = `ts|none|L` (L: lock held); then `final=<ans> read=<store>`.
 use std::sync::Arc;
@@ -109,6 +112,50 @@ fn interleavings(counts: &[usize]) -> Vec<String> {
     out
 }
 
+/// How long a task that ran into the held cache lock is watched to stay blocked.
+const BLOCK_WAIT: std::time::Duration = std::time::Duration::from_millis(25);
+
+enum Prog {
+    /// did not reach its next pause point nor finish within the bound
+    Blocked,
+    Arrived,
+    Finished(String),
+}
+
+/// Waits until the thread (whose current pause was released) reaches its next pause point or finishes.
+async fn await_progress(t: &mut Th, bound: Option<std::time::Duration>) -> Prog {
+    let pc = t.pc;
+    let mut handle = t.handle.take().expect("handle");
+    let next = (pc + 1 < 3).then(|| t.pauses[pc + 1].clone());
+    let res = {
+        let fut = async {
+            match &next {
+                Some(next) => tokio::select! {
+                    biased;
+                    r = &mut handle => Some(r.expect("task")),
+                    _ = next.reached() => None,
+                },
+                None => Some((&mut handle).await.expect("task")),
+            }
+        };
+        match bound {
+            Some(d) => tokio::time::timeout(d, fut).await.ok(),
+            None => Some(fut.await),
+        }
+    };
+    match res {
+        None => {
+            t.handle = Some(handle);
+            Prog::Blocked
+        }
+        Some(None) => {
+            t.handle = Some(handle);
+            Prog::Arrived
+        }
+        Some(Some(r)) => Prog::Finished(r),
+    }
+}
+
 impl Prop for C38 {
     fn id(&self) -> &'static str {
         "C38"
@@ -132,7 +179,7 @@ impl Prop for C38 {
         let all3 = interleavings(&[3, 3, 3]);
         let shapes = ["L,L,P6.0", "L,P6.0,P7.0", "P7.0,L,P6.0", "L,P5.9,P5.8", "L,P6.0,L"];
         for (i, shape) in shapes.iter().enumerate() {
-            let take = if tier == Tier::Thorough { all3.len() } else { 60 };
+            let take = if tier == Tier::Thorough { all3.len() } else { 30 };
             let mut idx: Vec<usize> = (0..all3.len()).collect();
             rng.shuffle(&mut idx);
             for j in idx.into_iter().take(take) {
@@ -243,65 +290,91 @@ impl Prop for C38 {
                 }
             };
             let mut blocked = 0;
+            let mut passed_through = 0;
+            // threads that were let into the real lock acquisition and are parked on the mutex (FIFO)
+            let mut pending: std::collections::VecDeque<usize> = Default::default();
+            // bookkeeping after thread `i` made progress; returns the event token
+            let settle = |ths: &mut Vec<Th>, acked: &mut Vec<Val>, ex: &mut Exec, i: usize, prog: Prog| -> String {
+                if ths[i].kind == Kind::Lookup && ths[i].pc == 0 {
+                    ths[i].snapshot = acked.clone(); // acknowledged publishes when the lookup takes its first step
+                }
+                match prog {
+                    Prog::Blocked => "b".into(),
+                    Prog::Arrived => {
+                        ths[i].pc += 1;
+                        "ok".into()
+                    }
+                    Prog::Finished(res) => {
+                        ths[i].done = true;
+                        match ths[i].kind {
+                            Kind::Publish(v) => {
+                                if res == "ack:1" {
+                                    acked.push(v);
+                                }
+                            }
+                            Kind::Lookup => {
+                                let got = res.strip_prefix("ans:").and_then(parse_val);
+                                let snap = ths[i].snapshot.clone();
+                                at_least(ex, &format!("answer of lookup thread {i}"), got, &snap);
+                            }
+                        }
+                        res
+                    }
+                }
+            };
             for (n, &i) in sch.iter().enumerate() {
                 if n >= explicit && ths.iter().all(|t| t.done) {
                     break;
                 }
+                let mut extra: Vec<String> = Vec::new();
                 let ev: String = if ths[i].done {
                     "-".into()
+                } else if pending.contains(&i) {
+                    "b".into() // already inside the lock acquisition
                 } else {
                     let needs_lock = matches!((ths[i].kind, ths[i].pc), (Kind::Lookup, 0) | (Kind::Publish(_), 1));
+                    let pc = ths[i].pc;
                     if needs_lock && core.cache_peek(key).is_none() {
-                        blocked += 1;
-                        "b".into()
-                    } else {
-                        if ths[i].kind == Kind::Lookup && ths[i].pc == 0 {
-                            ths[i].snapshot = acked.clone();
-                        }
-                        let pc = ths[i].pc;
+                        // The lock is held: let the real task run into the real acquisition and observe
+                        // that it stays blocked (it must not reach its next pause point).
                         ths[i].pauses[pc].release();
-                        let mut handle = ths[i].handle.take().expect("handle");
-                        let finished = if pc + 1 < 3 {
-                            let next = ths[i].pauses[pc + 1].clone();
-                            tokio::select! {
-                                biased;
-                                r = &mut handle => Some(r.expect("task")),
-                                _ = next.reached() => None,
+                        match await_progress(&mut ths[i], Some(BLOCK_WAIT)).await {
+                            Prog::Blocked => {
+                                blocked += 1;
+                                pending.push_back(i);
+                                "b".into()
                             }
-                        } else {
-                            Some((&mut handle).await.expect("task"))
-                        };
-                        match finished {
-                            None => {
-                                ths[i].handle = Some(handle);
-                                ths[i].pc += 1;
-                                "ok".into()
+                            prog => {
+                                passed_through += 1;
+                                settle(&mut ths, &mut acked, &mut ex, i, prog)
                             }
-                            Some(res) => {
-                                ths[i].done = true;
-                                match ths[i].kind {
-                                    Kind::Publish(v) => {
-                                        if res == "ack:1" {
-                                            acked.push(v);
-                                        }
-                                    }
-                                    Kind::Lookup => {
-                                        let got = res.strip_prefix("ans:").and_then(parse_val);
-                                        let snap = ths[i].snapshot.clone();
-                                        at_least(&mut ex, &format!("answer of lookup thread {i}"), got, &snap);
-                                    }
-                                }
-                                res
+                        }
+                    } else {
+                        ths[i].pauses[pc].release();
+                        let prog = await_progress(&mut ths[i], None).await;
+                        settle(&mut ths, &mut acked, &mut ex, i, prog)
+                    }
+                };
+                // after progress, the threads parked on the mutex get it in FIFO order as soon as it is free
+                if ev != "b" && ev != "-" {
+                    while let Some(&h) = pending.front() {
+                        match await_progress(&mut ths[h], Some(BLOCK_WAIT)).await {
+                            Prog::Blocked => break,
+                            prog => {
+                                pending.pop_front();
+                                let e = settle(&mut ths, &mut acked, &mut ex, h, prog);
+                                extra.push(format!("+{h}:{e}"));
                             }
                         }
                     }
-                };
+                }
                 let s = fmt_val(read_store(&core).await);
                 let c = match core.cache_peek(key) {
                     None => "L".to_string(),
                     Some(None) => "none".to_string(),
                     Some(Some(ts)) => ts.to_string(),
                 };
+                let ev = std::iter::once(ev).chain(extra).collect::<Vec<_>>().join("");
                 outs.push(format!("{ev},{s},{c}"));
             }
             let all_done = ths.iter().all(|t| t.done);
@@ -327,6 +400,10 @@ impl Prop for C38 {
             ex.tags.push(format!("lookups={nl}"));
             if blocked > 0 {
                 ex.tags.push("lock-contention".into());
+                ex.tags.push("observed-really-blocked".into());
+            }
+            if passed_through > 0 {
+                ex.tags.push("passed-through-held-lock".into());
             }
             if warm {
                 ex.tags.push("warm-cache".into());
